@@ -1283,13 +1283,15 @@ def shapes_inputs_to_size_dict(shapes, inputs):
     size_dict : dict[str, int]
         The index size dictionary.
     """
-    return {
-        ix: d
-        for ix, d in zip(
-            itertools.chain.from_iterable(inputs),
-            itertools.chain.from_iterable(shapes),
-        )
-    }
+    size_dict = {}
+    for ix, d in zip(
+        itertools.chain.from_iterable(inputs),
+        itertools.chain.from_iterable(shapes),
+    ):
+        # n.b. an index can be broadcast (have size 1) on some terms
+        if (ix not in size_dict) or (size_dict[ix] == 1):
+            size_dict[ix] = d
+    return size_dict
 
 
 def make_rand_size_dict_from_inputs(inputs, d_min=2, d_max=3, seed=None):
@@ -1507,11 +1509,12 @@ def canonicalize_inputs(
     if size_dict is not None:
         new_size_dict = {ind_map[ind]: d for ind, d in size_dict.items()}
     elif shapes is not None:
-        new_size_dict = {
-            ix: d
-            for term, shape in zip(new_inputs, shapes)
-            for ix, d in zip(term, shape)
-        }
+        new_size_dict = {}
+        for term, shape in zip(new_inputs, shapes):
+            for ix, d in zip(term, shape):
+                # n.b. an index can be broadcast (have size 1) on some terms
+                if (ix not in new_size_dict) or (new_size_dict[ix] == 1):
+                    new_size_dict[ix] = d
     else:
         new_size_dict = None
 
